@@ -1268,6 +1268,13 @@ func funMid(s string, start, end int) (string, error) {
 	if end > len(s) {
 		end = len(s)
 	}
+	// clamp both positions to the string on both sides
+	if start > len(s) {
+		start = len(s)
+	}
+	if end < 0 {
+		end = 0
+	}
 	return s[start:end], nil
 }
 
